@@ -102,6 +102,7 @@ class Lifter:
         self.draws = []          # (kind, args) per stochastic draw
         self.terminal = None     # name of a self-method treated as terminal
         self.fulls = []          # (shape, fill) of np.full calls
+        self.reshapes = []       # (call node, Tup of dims or None)
 
     # -- running a function --------------------------------------------------
     def run(self, fn, env, depth=0, owner=None):
@@ -178,8 +179,30 @@ class Lifter:
             return ('raise', None)
         if isinstance(s, ast.Assign):
             val = self.ev(s.value, env, fn, depth, owner)
+            shape = None
+            v = s.value
+            if isinstance(v, ast.Call) and isinstance(
+                    v.func, ast.Attribute) and v.func.attr == 'reshape':
+                # keep `<name>.shape` current across a reshape
+                dims = v.args[0].elts if len(v.args) == 1 and isinstance(
+                    v.args[0], ast.Tuple) else v.args
+                try:
+                    shape = Tup(self.ev(d, env, fn, depth, owner)
+                                for d in dims)
+                    if not all(isinstance(x, sp.Expr) for x in shape):
+                        shape = None
+                except Unsupported:
+                    shape = None
+                self.reshapes.append((v, shape))
             for t in s.targets:
                 self._assign(t, val, env, fn, depth, owner)
+                if isinstance(t, ast.Name):
+                    if shape is not None:
+                        env[t.id + '.shape'] = shape
+                    elif (t.id + '.shape') in env and not (
+                            isinstance(v, ast.Call) and U(v.func) in
+                            IDENTITY_FUNCS):
+                        del env[t.id + '.shape']
             return None
         if isinstance(s, ast.AugAssign):
             cur = self.ev(s.target, env, fn, depth, owner)
